@@ -331,7 +331,7 @@ func sequence(r *ev.Run, c *ev.Case, seqNo int) {
 		if r.NumViolations() > 10 {
 			return
 		}
-		switch rng.Intn(16) {
+		switch rng.Intn(18) {
 		case 0: // list
 			n := rng.Intn(5)
 			srv.keys = nil
@@ -640,6 +640,72 @@ func sequence(r *ev.Run, c *ev.Case, seqNo int) {
 				return
 			}
 			ok("wait", fmt.Sprint(code, srv.err != nil))
+		case 15: // smart-card requests: encoded by the client, relayed raw to the served agent
+			id := gen.NonEmptyStr(rng, 12)
+			pin := []byte(gen.Str(rng, 10))
+			lifetime := time.Duration(rng.Intn(3)*rng.Intn(100000)) * time.Second
+			confirm := rng.Intn(2) == 0
+			srv.raw = [][]byte{{6}, {5}, {}, {6, 1, 2}}[rng.Intn(4)]
+			srv.err = nil
+			remove := rng.Intn(2) == 0
+			op := "add-smartcard"
+			var err error
+			if remove {
+				op = "remove-smartcard"
+				trace = append(trace, op)
+				err = cl.RemoveSmartcardKey(id, pin)
+			} else {
+				trace = append(trace, op)
+				err = cl.AddSmartcardKey(id, pin, lifetime, confirm)
+			}
+			cs := expectCalls(op, 1)
+			if cs == nil {
+				return
+			}
+			if cs[0].Op != "forward" {
+				bad(op, "dispatch", cs[0].Op)
+				return
+			}
+			req := cs[0].Args[0].([]byte)
+			var m struct {
+				ID   string
+				PIN  []byte
+				Rest []byte `ssh:"rest"`
+			}
+			wantCode := byte(26)
+			if remove {
+				wantCode = 21
+			}
+			if len(req) < 1 || req[0] != wantCode || ssh.Unmarshal(req[1:], &m) != nil {
+				bad(op, "encoding", fmt.Sprintf("%x", req[:min(len(req), 40)]))
+				return
+			}
+			if m.ID != id || !bytes.Equal(m.PIN, pin) {
+				bad(op, "reader-or-pin", fmt.Sprintf("%q/%q vs %q/%q", m.ID, m.PIN, id, pin))
+				return
+			}
+			if !remove {
+				var want []byte
+				if secs := uint32(lifetime.Seconds()); lifetime != 0 {
+					want = append(want, 1, byte(secs>>24), byte(secs>>16), byte(secs>>8), byte(secs))
+				}
+				if confirm {
+					want = append(want, 2)
+				}
+				if !bytes.Equal(m.Rest, want) {
+					bad(op, "constraints", fmt.Sprintf("%x vs %x", m.Rest, want))
+					return
+				}
+			} else if len(m.Rest) != 0 {
+				bad(op, "trailing-bytes", fmt.Sprintf("%x", m.Rest))
+				return
+			}
+			wantErr := len(srv.raw) == 0 || srv.raw[0] != 6
+			if (err != nil) != wantErr {
+				bad(op, "result", fmt.Sprintf("served agent answered %x, client err=%v", srv.raw, err))
+				return
+			}
+			ok(op, fmt.Sprint(lifetime != 0, confirm, wantErr))
 		default: // raw forward (extension requests, code 27, are relayed raw as well)
 			var code byte
 			for {
